@@ -401,6 +401,9 @@ where
         + LossyFrom<U0F128>,
 {
     //wraparound
+    // one exact remainder first, so that the loops below run at most once
+    // whatever the magnitude of the angle (same result as repeated subtraction)
+    angle %= T::lossy_from(TWO_PI);
     while angle > PI {
         #[cfg(substrate_fixed_verif)]
         crate::verif_hooks::tick();
